@@ -56,8 +56,6 @@ def matOf (m : Nat) (a : Array GI) : Mat GI := fun r c => if r < m ∧ c < m the
 def arrOf (m : Nat) (M : Mat GI) : Array GI := Array.ofFn (n := m * m) fun i => M (i.val / m) (i.val % m)
 def vecOf (a : Array GI) : Nat → GI := fun k => a.getD k 0
 def arrOfVec (m : Nat) (v : Nat → GI) : Array GI := Array.ofFn (n := m) fun i => v i.val
-/-- materialise (so that later look-ups are array reads). -/
-def mat (m : Nat) (M : Mat GI) : Mat GI := matOf m (arrOf m M)
 
 /-- Kraus operator given as a gate on ordered target qubits, embedded in `n` qubits with the
 simulator model (what `FusedGate(*range(n)).append(gate).matrix()` computes). -/
@@ -103,8 +101,8 @@ def handle : P String := do
   | "KLIOU" =>
     let o := ordOf (← nextNat); let n ← nextNat
     let ks ← nextKrausList n
-    let C := mat (4 ^ n) (krausToChoi GI.conj o (2 ^ n) n ks)
-    pure (showGIs (arrOf (4 ^ n) (choiToLiouville o (2 ^ n) C)))
+    let Ca := arrOf (4 ^ n) (krausToChoi GI.conj o (2 ^ n) n ks)
+    pure (showGIs (arrOf (4 ^ n) (choiToLiouville o (2 ^ n) (matOf (4 ^ n) Ca))))
   | "BASIS" =>
     let o := ordOf (← nextNat); let n ← nextNat; let po ← nextNats 4
     pure (showGIs (arrOf (4 ^ n) (compToPauli GI.conj im po o n)))
@@ -112,23 +110,26 @@ def handle : P String := do
     let o := ordOf (← nextNat); let n ← nextNat; let po ← nextNats 4
     let a ← nextGIs (4 ^ n * 4 ^ n)
     let m := 4 ^ n
-    let B := mat m (compToPauli GI.conj im po o n)
+    let Ba := arrOf m (compToPauli GI.conj im po o n)
+    let B := matOf m Ba
     let S := matOf m a
-    let BS := mat m (matMul m B S)
-    pure (showGIs (arrOf m (matMul m BS (conjT GI.conj B))))
+    let BSa := arrOf m (matMul m B S)
+    pure (showGIs (arrOf m (matMul m (matOf m BSa) (conjT GI.conj B))))
   | "P2L" =>
     let o := ordOf (← nextNat); let n ← nextNat; let po ← nextNats 4
     let a ← nextGIs (4 ^ n * 4 ^ n)
     let m := 4 ^ n
-    let Bi := mat m (pauliToComp im po o n)
+    let Ba := arrOf m (pauliToComp im po o n)
+    let Bi := matOf m Ba
     let S := matOf m a
-    let BS := mat m (matMul m Bi S)
-    pure (showGIs (arrOf m (matMul m BS (conjT GI.conj Bi))))
+    let BSa := arrOf m (matMul m Bi S)
+    pure (showGIs (arrOf m (matMul m (matOf m BSa) (conjT GI.conj Bi))))
   | "KCHI" =>
     let o := ordOf (← nextNat); let n ← nextNat; let po ← nextNats 4
     let ks ← nextKrausList n
     let m := 4 ^ n
-    let B := mat m (compToPauli GI.conj im po o n)
+    let Ba := arrOf m (compToPauli GI.conj im po o n)
+    let B := matOf m Ba
     let vs : List (Array GI) := ks.map fun K => arrOfVec m (matVec m B (vectorization o (2 ^ n) n K))
     pure (showGIs (arrOf m (fun r c => sumList vs (fun v => v.getD r 0 * GI.conj (v.getD c 0)))))
   | "K2S" =>
